@@ -202,6 +202,10 @@ def run(ctx):
     try:
         while True:
             specs, tags = [], []
+            # mixin enum members next to their bare values and to same-valued members of other mixin enums
+            for group in rnd.sample(pr.mixin_groups(), 12):
+                for g in group:
+                    specs.append(g); tags.append('mixin-group')
             while len(specs) < n:
                 g = pg.Gen(rnd, max_depth=rnd.randrange(2, depth + 1), malformed=0.0)
                 s = g.task(0)
@@ -242,7 +246,7 @@ def run(ctx):
                 for a in single_tree_alarms(s, r, storage):
                     viol.append(dict(what=a, replay=dict(kind='tree', spec=s)))
                 # planted neighbour right after its base
-                if tag != 'base' and reals[i - 1]['status'] == 'ok':
+                if tag not in ('base', 'mixin-group') and reals[i - 1]['status'] == 'ok':
                     b = reals[i - 1]
                     if tag == 'respelled':
                         try:
